@@ -24,6 +24,64 @@ func genOne(c *hx.Ctx, class string) string {
 	if r.Intn(3) == 0 {
 		K = r.Range(1, 2)
 	}
+	needClose := class == "close-mid" || class == "close-tie" || class == "cstop" || class == "close-early"
+	// queue construction: two thirds of the scenarios build the queue from an explicit option list
+	optS := ""
+	if r.Intn(3) > 0 {
+		var toks []string
+		size, ch := 8, 0
+		add := func(t string) {
+			toks = append(toks, t)
+			var n int
+			fmt.Sscanf(t[2:], "%d", &n)
+			switch t[:2] {
+			case "sz":
+				if n > 0 {
+					size = n
+				}
+			case "cc":
+				if n > 0 {
+					ch = n
+				}
+			}
+		}
+		for i := r.Intn(6); i > 0; i-- {
+			switch r.Intn(9) {
+			case 0:
+				add(fmt.Sprintf("sz%d", r.Pick([]int{0, -1, -8})))
+			case 1, 2:
+				add(fmt.Sprintf("sz%d", r.Range(1, 8)))
+			case 3:
+				add("cc0")
+			case 4:
+				add(fmt.Sprintf("cc%d", r.Range(1, 2)))
+			case 5, 6:
+				add("lg0")
+			default:
+				add(fmt.Sprintf("lg%d", r.Range(1, 2)))
+			}
+		}
+		if r.Intn(2) == 0 {
+			add(fmt.Sprintf("sz%d", K)) // mostly small queues: they must get full with every logger variant
+			if r.Intn(3) == 0 {
+				add(fmt.Sprintf("sz%d", r.Pick([]int{0, -2})))
+			}
+		}
+		if needClose && ch != 1 {
+			add("cc1")
+			if r.Intn(2) == 0 {
+				add("cc0")
+			}
+		}
+		if r.Intn(4) == 0 {
+			add("lg0") // WithErrorLogger(nil) as the last logger option
+		}
+		K = size
+		optS = " opts " + strings.Join(toks, " ")
+		if len(toks) == 0 {
+			optS = " opts"
+		}
+	}
 	nP := r.Range(1, 4)
 	maxSends := 20
 	type op struct {
@@ -39,8 +97,23 @@ func genOne(c *hx.Ctx, class string) string {
 			n = r.Range(1, 5)
 		}
 		slot := r.Range(1, 4)
+		var cbIdx, nilIdx []int
 		for i := 0; i < n; i++ {
 			kind := ""
+			if !needClose && len(cbIdx) > 0 && r.Intn(7) == 0 {
+				// re-send a task this producer sent before (it may or may not have been executed by now)
+				kind = fmt.Sprintf("rs%d", cbIdx[r.Intn(len(cbIdx))])
+			} else if !needClose && len(nilIdx) > 0 && r.Intn(10) == 0 {
+				kind = fmt.Sprintf("re%d", nilIdx[r.Intn(len(nilIdx))])
+			}
+			if kind != "" {
+				ops = append(ops, op{p, kind, int64(16*slot + p + 1)})
+				if slot > maxSlot {
+					maxSlot = slot
+				}
+				slot += r.Intn(4)
+				continue
+			}
 			switch x := r.Intn(20); {
 			case x < 13:
 				kind = fmt.Sprintf("cb%d", genCode(r))
@@ -52,6 +125,11 @@ func genOne(c *hx.Ctx, class string) string {
 				kind = "tk"
 			default:
 				kind = "tn"
+			}
+			if strings.HasPrefix(kind, "cb") || strings.HasPrefix(kind, "cd") {
+				cbIdx = append(cbIdx, i)
+			} else if kind == "nil" {
+				nilIdx = append(nilIdx, i)
 			}
 			ops = append(ops, op{p, kind, int64(16*slot + p + 1)})
 			if slot > maxSlot {
@@ -100,7 +178,7 @@ func genOne(c *hx.Ctx, class string) string {
 	for _, o := range ops {
 		sb = append(sb, fmt.Sprintf("%d %s %d", o.p, o.kind, o.at))
 	}
-	return fmt.Sprintf("c09 K %d close %s cstop %s cons %d %s | %s", K, closeS, cstopS, cstart, strings.Join(cdel, " "), strings.Join(sb, " ; "))
+	return fmt.Sprintf("c09 K %d close %s cstop %s%s cons %d %s | %s", K, closeS, cstopS, optS, cstart, strings.Join(cdel, " "), strings.Join(sb, " ; "))
 }
 
 func gen(c *hx.Ctx) {
